@@ -154,6 +154,9 @@ func (t *PageTree) loadPages() error {
 
 	// Start recursive traversal from root
 	if err := t.traversePageNode(t.root, nil); err != nil {
+		// Forget the pages collected so far: a later call must fail the same
+		// way instead of serving a partial page list.
+		t.pages = nil
 		return fmt.Errorf("failed to traverse page tree: %w", err)
 	}
 
